@@ -67,9 +67,10 @@ Proof. exact closed_ends_gracefully. Qed.
 (* The whole stream, server-initiated direction: a conforming frame list (any fragmentation, control frames anywhere, any
    length forms), then the server's Close frame -- empty, or a valid status code with a UTF-8 reason -- in any length form.
    For any application that only sends: the prefix's messages are delivered, then exactly one Closing event carrying the
-   server's code and reason, no ProtocolError, and the client is closing (not closed).  For a passive application on a
-   working transport the frames written are the Pongs owed for the prefix and then exactly one Close frame whose payload is
-   byte-for-byte the server's (same code, same reason). *)
+   server's code and reason, no ProtocolError, and the client is closing (not closed).  On a working transport the frames
+   the LIBRARY writes (Proofs.DeliveryFacts.writes: every write except the ones the application's own send_* calls make
+   from its handlers) are the Pongs owed for the prefix and then exactly one Close frame whose payload is byte-for-byte the
+   server's (same code, same reason) -- whatever the application sends in between. *)
 Theorem C08_server_close_after_conforming_prefix : forall cf app, benign app -> zpos (c_ping_timeout cf) = None ->
   forall fs lfs c open ms open' f lf code reason,
   idle c open -> data_head open -> Forall plain fs -> forms_ok fs lfs ->
@@ -80,7 +81,7 @@ Theorem C08_server_close_after_conforming_prefix : forall cf app, benign app -> 
     msg_events (k_tr c') = EvClosing code reason :: rev (map ev_of ms) ++ msg_events (k_tr c) /\
     perrors (k_tr c') = perrors (k_tr c) /\
     k_closing c' = true /\ k_closed c' = false /\
-    (passive app -> c_ping_rate cf = 0%Z -> c_auto_pong cf = true -> wok c ->
+    (c_ping_rate cf = 0%Z -> c_auto_pong cf = true -> wok c ->
      writes (k_tr c') = (OP_CLOSE, f_payload f) :: rev (pong_replies ms) ++ writes (k_tr c)).
 Proof. exact server_close_after_prefix. Qed.
 Print Assumptions C08_server_close_after_conforming_prefix.
